@@ -2,6 +2,7 @@ package sx
 
 import (
 	"fmt"
+	"go/types"
 
 	"verif/engine/smt"
 
@@ -430,5 +431,64 @@ func init() {
 	}
 	intrinsics["vX509ParseCalls"] = func(in *Interp, fn *ssa.Function, a []Value) Value {
 		return smt.BV(uint64(intGhost(in, "x509.parse.calls")), 64)
+	}
+}
+
+// ---- lemma support: running goxmldsig's real verifyCertificate (L2) ----
+
+func init() {
+	models["(*crypto/x509.Certificate).Equal"] = func(in *Interp, fn *ssa.Function, a []Value) Value {
+		x, _ := a[0].(*Ptr)
+		y, _ := a[1].(*Ptr)
+		if x == nil || y == nil {
+			return smt.Bool(x == nil && y == nil)
+		}
+		ct := derefType(fn.Signature.Recv().Type())
+		xr := in.load(x).(*StructV).F[fieldIndex(ct, "Raw")].(*SliceV)
+		yr := in.load(y).(*StructV).F[fieldIndex(ct, "Raw")].(*SliceV)
+		in.X.noteAssumption("x509.Certificate.Equal = equality of the Raw DER bytes (stdlib definition)")
+		return smt.Eq(in.stringOfBytes(xr), in.stringOfBytes(yr))
+	}
+	models["(*regexp.Regexp).ReplaceAllString"] = func(in *Interp, fn *ssa.Function, a []Value) Value {
+		s := termArg(in, a[1])
+		in.X.noteAssumption("regexp ReplaceAllString (white-space stripping of the embedded certificate text): uninterpreted function of the string")
+		return smt.UF("regexp_replace_all", []string{"String"}, &smt.Term{K: smt.KStr}, s)
+	}
+	// vX509Cert(name): a parsed certificate whose Raw bytes are symbolic; validity bounds are the same
+	// functions of the bytes that the ParseCertificate model uses
+	intrinsics["vX509Cert"] = func(in *Interp, fn *ssa.Function, a []Value) Value {
+		sl := intrinsics["vCertBytes"](in, nil, []Value{a[0]}).(*SliceV)
+		content := in.stringOfBytes(sl)
+		in.Assume(x509OK(content))
+		ct := derefType(fn.Signature.Results().At(0).Type())
+		sv := zeroValue(ct).(*StructV)
+		f := make([]Value, len(sv.F))
+		copy(f, sv.F)
+		f[fieldIndex(ct, "NotBefore")] = &TimeV{Inst: in.x509Instant("nb", content), UTC: smt.True, Clock: "cert"}
+		f[fieldIndex(ct, "NotAfter")] = &TimeV{Inst: in.x509Instant("na", content), UTC: smt.True, Clock: "cert"}
+		f[fieldIndex(ct, "Raw")] = sl
+		o := in.newObject(ct, &StructV{F: f}, "x509 cert "+constStr(in, a[0], "name"))
+		return &Ptr{Obj: o}
+	}
+	// vVerifyCertificate(ctx, sig): calls goxmldsig's unexported (*ValidationContext).verifyCertificate (real SSA)
+	intrinsics["vVerifyCertificate"] = func(in *Interp, fn *ssa.Function, a []Value) Value {
+		pkg := in.P.Pkgs[dsigPkg]
+		vt := pkg.Type("ValidationContext").Type()
+		f := in.P.Prog.LookupMethod(types.NewPointer(vt), pkg.Pkg, "verifyCertificate")
+		if f == nil {
+			in.end("unmodelled", "goxmldsig verifyCertificate not found")
+		}
+		return in.callFunction(f, []Value{a[0], a[1]}, nil)
+	}
+	intrinsics["vCertRaw"] = func(in *Interp, fn *ssa.Function, a []Value) Value {
+		p, _ := a[0].(*Ptr)
+		if p == nil {
+			return &SliceV{}
+		}
+		ct := derefType(fn.Signature.Params().At(0).Type())
+		return in.load(p).(*StructV).F[fieldIndex(ct, "Raw")]
+	}
+	intrinsics["vStripWS"] = func(in *Interp, fn *ssa.Function, a []Value) Value {
+		return smt.UF("regexp_replace_all", []string{"String"}, &smt.Term{K: smt.KStr}, termArg(in, a[0]))
 	}
 }
